@@ -7,6 +7,7 @@ CONSTANTS
   Doms = {"dA", "dB", "dC"}
   Rngs = {"rA", "rB"}
   NiceMs = {"10", "2"}
+INVARIANT C15_CallsComplete
 INVARIANT C15_EndpointsMapAfterHistory
 INVARIANT C15_InvertAfterHistory
 INVARIANT SameShape
